@@ -43,7 +43,8 @@ class C13(Prop):
                     self.pda_layer("PDA(1,2,2,3)", lambda: GP.pda_cases(1, 2, 2, 3, 3), pl[:2]),
                     self.pda_layer("PDA(2,2,2,<=2)/names:reserved (every 3rd)",
                                    lambda: (c for k, c in enumerate(GP.pda_cases(2, 2, 2, 0, 2)) if k % 3 == 0), adv),
-                    self.cfg_layer("CFG(2,2,2,<=3)", lambda: GC.cfg_cases(2, 2, 2, 0, 3), ["natural@plain", "1@plain", "2@pda"])]
+                    self.cfg_layer("CFG(2,2,2,<=3)", lambda: GC.cfg_cases(2, 2, 2, 0, 3),
+                                   ["natural@plain", "1@plain", "natural@pda", "1@pda", "2@pda", "3@pda"])]
         return [self.pda_layer("PDA(2,2,2,<=2)", lambda: GP.pda_cases(2, 2, 2, 0, 2), pl + ["3@plain", "s%d@plain" % seed], rep=None),
                 self.pda_layer("PDA(1,2,2,<=4)", lambda: GP.pda_cases(1, 2, 2, 3, 4), pl[:2]),
                 self.pda_layer("PDA(2,2,2,3) every 5th", lambda: (c for k, c in enumerate(GP.pda_cases(2, 2, 2, 3, 3)) if k % 5 == 0), pl[:2]),
